@@ -1,6 +1,6 @@
 (* C06 - case records and boolean checkers for the generated case files. *)
 From Coq Require Import String List Bool Arith ZArith QArith Qcanon.
-From AL Require Import Base.CaseLib C04.Model C04.Check C06.Model C06.Spec C06.ProofsWf.
+From AL Require Import Base.CaseLib C04.Model C04.Check C06.Model C06.Spec C06.ProofsWf C06.ProofsGain.
 Import ListNotations.
 
 Definition tterm_eqb (a b : tterm) : bool :=
@@ -63,8 +63,7 @@ Definition wf_case (c : tcase) : bool :=
   match build coef_alg (c_expr c) 0 with
   | BOk f h =>
       match prepare h f with
-      | Ok (BOk f' _) => match tcodegen f' (c_zero c) with Ok (TGen p) => if tp_try p then wf_prog f' p   (* no Stream coefficient: property C04 *)
-                                                        else is_nil (tp_bargs p ++ tp_aargs p)
+      | Ok (BOk f' _) => match tcodegen f' (c_zero c) with Ok (TGen p) => keys_ok_b (t_num f) && keys_ok_b (t_den f) && wf_prog f' p
                                          | _ => true end
       | _ => true
       end
